@@ -1235,19 +1235,18 @@ class SharedSpaceOperations:
             # False if name is a child of parent
             return not isinstance(parent._namespace.fresh[name], Impl)
 
-        sub = self._find_name_in_subs(parent, name, skip_self=True)   # start from parent
-        if sub is None:
-            return True
-        elif isinstance(sub, klass):
-            return True
-        else:
-            return False
+        # False if the name is another kind of object in any sub space
+        return all(
+            isinstance(sub, klass) for sub in
+            self._iter_name_in_subs(parent, name, skip_self=True))
 
-    def _find_name_in_subs(self, parent, name, skip_self=False):
+    def _iter_name_in_subs(self, parent, name, skip_self=False):
         for subspace in self._get_subs(parent, skip_self=skip_self):
             if name in subspace.namespace:
-                return subspace._namespace.fresh[name]
-        return None
+                yield subspace._namespace.fresh[name]
+
+    def _find_name_in_subs(self, parent, name, skip_self=False):
+        return next(self._iter_name_in_subs(parent, name, skip_self), None)
 
     def _get_space_bases(self, space, skip_self=True):
         idx = 1 if skip_self else 0
@@ -1505,8 +1504,7 @@ class SpaceManager(SharedSpaceOperations):
 
     def new_ref(self, space, name, value, refmode):
 
-        other = self._find_name_in_subs(space, name)
-        if other is not None:
+        for other in self._iter_name_in_subs(space, name):
             if not isinstance(other, ReferenceImpl):
                 raise ValueError("Cannot create reference '%s'" % name)
             elif other not in self.model.global_refs.values():
